@@ -1,6 +1,7 @@
-(* Extraction of the AOFSHRINK model (C09). ExtrOcamlBasic only. *)
+(* Extraction of the AOFSHRINK model (C09). ExtrOcamlBasic only.
+   Depends on the regenerated table Gen.ShrinkFinal (reserved field names) through Model.ShrinkLoad. *)
 From Coq Require Import Extraction ExtrOcamlBasic ZArith NArith List.
-From T38 Require Import Base.Bytes Base.SMap Model.Shrink Model.ShrinkBuf.
+From T38 Require Import Base.Bytes Base.SMap Model.Shrink Model.ShrinkBuf Model.ShrinkLoad.
 Extraction Language OCaml.
 Extraction "model.ml" Z.add Z.of_N Nat.add exec replay lookup logged shrink_init step sh_done
-  newfile maxkeys maxids do_ev request end_rewrite idle run_init create_shrink write_snap crash_from rewrite_dir startup_dir hexec hreplay hreplay_orig hstep hdo_ev hrun_init hnewfile hlogged hs_done obj_ttl_tenths hook_ttl_tenths rec_cmd flatten crash_at recover_dir recover_dir_orig all_cpoints cp_index final_ops bstep blog crash_atb.
+  newfile maxkeys maxids do_ev request end_rewrite idle run_init create_shrink write_snap crash_from rewrite_dir startup_dir hexec hreplay hreplay_orig hstep hdo_ev hrun_init hnewfile hlogged hs_done obj_ttl_tenths hook_ttl_tenths rec_cmd flatten crash_at recover_dir recover_dir_orig all_cpoints cp_index final_ops bstep blog crash_atb trim_ws exec_n norm enc dec coords startup startup_ops to_fs.
